@@ -17,6 +17,10 @@ Extra (unused by the specification) fields make classes of instances identifiabl
             "open_late" (open + TW) a route serves its last customer so late that driving back
                         would miss the depot window (irrelevant for the problem: open routes do
                         not drive back)
+  near      near misses: a feasible route + one more customer violates exactly ONE constraint by
+            a hair: "tw_miss" (arrival 1-2 after the window end), "depot_miss" (back 1-3 after the
+            depot closes), "lim_miss" (1-4 over the limit), "cap_miss" (load = capacity + 1)
+  speed2    != 2 marks the instances whose vehicle speed is not the default
 """
 import itertools
 import random
@@ -116,22 +120,38 @@ def instance_ok(i):
 
 
 def label(i):
-    tight = set()
+    """(tight, near): boundary situations met by feasible routes / routes that are feasible
+    except for ONE constraint missed by a hair when their last customer is added"""
+    tight, near = set(), set()
+    H, lim, cap = i["H"], i["lim"], i["cap"]
     for r in _routes(i["N"]):
-        if not _route_ok(i, r):
-            continue
         sched, leave = _schedule(i, r)
-        if any(arr == i["late"][j - 1] for (arr, st), j in zip(sched, r)):
-            tight.add("tw_eq")
-        if not i["open"] and leave + _tt(i, r[-1], 0) == i["H"]:
-            tight.add("depot_eq")
-        if _route_len(i, r) == i["lim"]:
-            tight.add("lim_eq")
-        if sum(i["lh"][j - 1] for j in r) == i["cap"] or sum(i["bh"][j - 1] for j in r) == i["cap"]:
-            tight.add("cap_eq")
-        if i["open"] and i["H"] < INF and leave + _tt(i, r[-1], 0) > i["H"]:
-            tight.add("open_late")
-    return sorted(tight)
+        back = leave + _tt(i, r[-1], 0)
+        if _route_ok(i, r):
+            if any(arr == i["late"][j - 1] for (arr, st), j in zip(sched, r)):
+                tight.add("tw_eq")
+            if not i["open"] and back == H:
+                tight.add("depot_eq")
+            if _route_len(i, r) == lim:
+                tight.add("lim_eq")
+            if sum(i["lh"][j - 1] for j in r) == cap or sum(i["bh"][j - 1] for j in r) == cap:
+                tight.add("cap_eq")
+            if i["open"] and H < INF and back > H:
+                tight.add("open_late")
+            continue
+        if len(r) > 1 and not _route_ok(i, r[:-1]):
+            continue
+        j = r[-1]
+        # relax one constraint at a time
+        if _route_ok(dict(i, late=[INF] * i["N"]), r) and 0 < sched[-1][1] - i["late"][j - 1] <= 2:
+            near.add("tw_miss")
+        if not i["open"] and _route_ok(dict(i, H=INF), r) and 0 < back - H <= 3:
+            near.add("depot_miss")
+        if _route_ok(dict(i, lim=INF), r) and 0 < _route_len(i, r) - lim <= 4:
+            near.add("lim_miss")
+        if _route_ok(dict(i, cap=cap + 1), r):
+            near.add("cap_miss")
+    return sorted(tight), sorted(near)
 
 
 # --------------------------------------------------------------------------
@@ -171,8 +191,9 @@ def _limits(D, n, o, rnd, k):
 
 
 def _windows(D, n, o, rnd, k, speed2=2):
-    """(early, late, svc, H) configurations: generator-like random ones and ones aimed at the
-    boundaries (arrival exactly at a window end, return exactly at the depot's window end)"""
+    """(early, late, svc, H, want) configurations: generator-like random ones (want = None) and
+    ones aimed at a boundary: want = label the finished instance must carry (arrival exactly at /
+    just after a window end, return exactly at / just after the end of the depot window)"""
     out = []
     sp = {"D": D, "speed2": speed2}
     d0 = [_tt(sp, 0, j) for j in range(1, n + 1)]
@@ -185,33 +206,37 @@ def _windows(D, n, o, rnd, k, speed2=2):
         early = [d + rnd.choice((0, 1, 2, 4, 8)) for d in d0]
         late = [e + rnd.choice((2, 3, 4, 8)) for e in early]
         svc = [rnd.choice((0, 1, 2)) for _ in d0]
-        out.append((early, late, svc, horizon(early, late, svc, rnd.choice((0, 0, 3)))))
+        out.append((early, late, svc, horizon(early, late, svc, rnd.choice((0, 0, 3))), None))
     # wide windows, tight horizon (the way home decides)
     for _ in range(k):
         early = [rnd.choice((0, 0, d)) for d in d0]
         late = [e + rnd.choice((16, 24, 40)) for e in early]
         svc = [rnd.choice((0, 1, 2)) for _ in d0]
         lo = max(max(d, e) + s + d for e, s, d in zip(early, svc, d0)) + 1
-        out.append((early, late, svc, lo + rnd.choice((0, 2, 5, 9, 14))))
-    # aimed: follow a route under wide windows, then close one window / the depot exactly on time
-    for _ in range(2 * k):
-        r = rnd.choice([r for r in _routes(n) if len(r) >= 2])
-        early = [rnd.choice((0, d, d + 2)) for d in d0]
-        svc = [rnd.choice((0, 1, 2, 3)) for _ in d0]
-        late = [e + 40 for e in early]
-        tmp = {"D": D, "early": early, "late": late, "svc": svc, "speed2": speed2}
-        sched, leave = _schedule(tmp, r)
-        kind = rnd.choice(("tw", "tw", "depot")) if not o else "tw"
-        if kind == "tw":
-            pos = rnd.randrange(1, len(r))
-            arr, st = sched[pos]
-            j = r[pos]
-            if arr > early[j - 1]:
-                late[j - 1] = arr + rnd.choice((0, 0, 0, 1, -1))
-            H = horizon(early, late, svc, rnd.choice((0, 2)))
-        else:
-            H = leave + _tt(sp, r[-1], 0) + rnd.choice((0, 0, 0, 1, -1, -2))
-        out.append((early, late, svc, H))
+        out.append((early, late, svc, lo + rnd.choice((0, 2, 5, 9, 14)), None))
+    # aimed: follow a route under wide windows, then close one window / the depot on time (or a hair early)
+    kinds = ["tw_eq", "tw_miss"] + ([] if o else ["depot_eq", "depot_miss"])
+    for kind in kinds:
+        for _ in range(k):
+            r = rnd.choice([r for r in _routes(n) if len(r) >= 2])
+            early = [rnd.choice((0, d, d + 2)) for d in d0]
+            svc = [rnd.choice((0, 1, 2, 3)) for _ in d0]
+            late = [e + 40 for e in early]
+            if kind == "depot_miss":
+                svc[r[-1] - 1] = rnd.choice((2, 3))      # the service time itself makes the route late
+            tmp = {"D": D, "early": early, "late": late, "svc": svc, "speed2": speed2}
+            sched, leave = _schedule(tmp, r)
+            if kind in ("tw_eq", "tw_miss"):
+                pos = rnd.randrange(1, len(r))
+                arr, st = sched[pos]
+                j = r[pos]
+                if arr <= early[j - 1] + 1:
+                    continue
+                late[j - 1] = arr - (0 if kind == "tw_eq" else 1)
+                H = horizon(early, late, svc, rnd.choice((0, 2)))
+            else:
+                H = leave + _tt(sp, r[-1], 0) - (0 if kind == "depot_eq" else 1)
+            out.append((early, late, svc, H, kind))
     return out
 
 
@@ -223,6 +248,7 @@ def build(tier, seed):
         sizes = [(3, [(0, 0), (1, 0)], 5, 1)]
     else:
         sizes = [(3, [(0, 0), (1, 0), (2, 0), (0, 1), (1, 2)], 24, 4), (4, [(0, 0), (1, 0)], 3, 0)]
+    turn = 0
     for (n, tmpl, per, per_speed) in sizes:
         for (o, b, l, tw) in VARIANTS:
             for (w, rot) in tmpl:
@@ -233,28 +259,41 @@ def build(tier, seed):
                     if all((2 * x) % 4 == 0 for row in D for x in row):
                         slices.append((4, per_speed))                   # speed 2
                 for (speed2, quota) in slices:
-                    made = 0
                     dems = _demand_patterns(n, b, rnd, 12)
                     lims = _limits(D, n, o, rnd, 4) if l else [INF]
                     wins = (_windows(D, n, o, rnd, 6, speed2) if tw
-                            else [([0] * n, [INF] * n, [0] * n, INF)])
+                            else [([0] * n, [INF] * n, [0] * n, INF, None)])
                     combos = list(itertools.product(dems, lims, wins))
                     rnd.shuffle(combos)
-                    for (lh, bh, cap), lim, (early, late, svc, H) in combos:
-                        if made >= quota:
-                            break
-                        i = {"N": n, "D": D, "lh": list(lh), "bh": list(bh), "cap": cap,
-                             "open": bool(o), "lim": lim, "H": H, "early": list(early),
-                             "late": list(late), "svc": list(svc), "speed2": speed2,
-                             "pts": pts, "grid": g, "variant": variant_name(o, b, l, tw)}
-                        key = (n, w, rot, tuple(lh), tuple(bh), cap, o, lim, H, speed2,
-                               tuple(early), tuple(late), tuple(svc))
-                        if key in seen or not instance_ok(i):
-                            continue
-                        seen.add(key)
-                        i["tight"] = label(i)
-                        insts.append(i)
-                        made += 1
+                    # one bucket per aim; buckets are served in turn so that every kind of
+                    # boundary shows up even when only a few instances are taken
+                    buckets = {}
+                    for c in combos:
+                        buckets.setdefault(c[2][4], []).append(c)
+                    order = sorted(buckets, key=lambda x: x or "")
+                    made, idle = 0, 0
+                    while made < quota and idle < len(order):
+                        want = order[turn % len(order)]
+                        turn += 1
+                        got = False
+                        while buckets[want] and not got:
+                            (lh, bh, cap), lim, (early, late, svc, H, _) = buckets[want].pop()
+                            i = {"N": n, "D": D, "lh": list(lh), "bh": list(bh), "cap": cap,
+                                 "open": bool(o), "lim": lim, "H": H, "early": list(early),
+                                 "late": list(late), "svc": list(svc), "speed2": speed2,
+                                 "pts": pts, "grid": g, "variant": variant_name(o, b, l, tw)}
+                            key = (n, w, rot, tuple(lh), tuple(bh), cap, o, lim, H, speed2,
+                                   tuple(early), tuple(late), tuple(svc))
+                            if key in seen or not instance_ok(i):
+                                continue
+                            i["tight"], i["near"] = label(i)
+                            if want is not None and want not in i["tight"] + i["near"]:
+                                continue
+                            seen.add(key)
+                            insts.append(i)
+                            made += 1
+                            got = True
+                        idle = 0 if got else idle + 1
     return with_ids(insts)
 
 
